@@ -142,7 +142,8 @@ class Sym:
         if isinstance(v, SetV):
             return SetV(self.array(name, v.arr.sort().domain(), z3.BoolSort()))
         if isinstance(v, ObjSeq):
-            return ObjSeq(v.cls, v.length, {f: self.array("%s.%s" % (name, f), z3.IntSort(), a.sort().range()) for f, a in v.fields.items()})
+            return ObjSeq(v.cls, v.length, {f: (a if isinstance(a, (list, tuple)) else self.array("%s.%s" % (name, f), z3.IntSort(), a.sort().range()))
+                                            for f, a in v.fields.items()})
         if isinstance(v, DictV):
             return DictV(self.array(name + ".dom", v.dom.sort().domain(), z3.BoolSort()),
                          self.array(name + ".val", v.val.sort().domain(), v.val.sort().range()))
@@ -562,6 +563,23 @@ class Executor:
         # ---- 2. cut: arbitrary iteration  |  exit
         which = self.choice(2, tag)
         self.havoc(env, names, fields, tag)
+        if mode == "seq" and isinstance(itseq, ObjSeq) and isinstance(st.target, ast.Name):
+            # stores through the loop variable (a view of the list element) modify the iterated list: havoc the written fields in place
+            written = set()
+            for n_ in st.body:
+                for sub in ast.walk(n_):
+                    tg = []
+                    if isinstance(sub, ast.Assign):
+                        tg = sub.targets
+                    elif isinstance(sub, ast.AugAssign):
+                        tg = [sub.target]
+                    for t_ in tg:
+                        if isinstance(t_, ast.Attribute) and isinstance(t_.value, ast.Name) and t_.value.id == st.target.id:
+                            written.add(t_.attr)
+            for f_ in sorted(written):
+                if f_ in itseq.fields and not isinstance(itseq.fields[f_], (list, tuple)):
+                    a_ = itseq.fields[f_]
+                    itseq.fields[f_] = S.array("%s.%s" % (tag, f_), z3.IntSort(), a_.sort().range())
         if which == 0:
             # arbitrary iteration
             if mode in ("range", "seq"):
@@ -574,9 +592,7 @@ class Executor:
                 if mode == "range":
                     self.assign(st.target, k, env)
                 elif isinstance(itseq, ObjSeq):
-                    view = Obj(itseq.cls, {f: z3.Select(a, k) for f, a in itseq.fields.items()})
-                    view.origin = (itseq, k)
-                    self.assign(st.target, view, env)
+                    self.assign(st.target, _view(itseq, k), env)
                 else:
                     self.assign(st.target, self.seq_get(itseq, k, st), env)
             elif mode == "set":
@@ -684,8 +700,8 @@ class Executor:
             o.fields[t.attr] = val
             if hasattr(o, "origin"):
                 oseq, oi = o.origin
-                if t.attr not in oseq.fields:
-                    raise OutOfSubset("store to undeclared field %s of a list element" % t.attr, t)
+                if t.attr not in oseq.fields or isinstance(oseq.fields[t.attr], (list, tuple)):
+                    raise OutOfSubset("store to undeclared or list-valued field %s of a list element" % t.attr, t)
                 rs = oseq.fields[t.attr].sort().range()
                 oseq.fields[t.attr] = z3.Store(oseq.fields[t.attr], oi, V.to_z3(V.bool_to_int(val), rs == z3.RealSort()))
         elif isinstance(t, ast.Subscript):
@@ -1121,8 +1137,7 @@ class Executor:
                 idx = V.to_z3(base.length) + idx
             iz = V.to_z3(idx)
             self.safety("index", z3.And(iz >= 0, iz < V.to_z3(base.length)), e)
-            view = Obj(base.cls, {f: z3.Select(a, iz) for f, a in base.fields.items()})
-            view.origin = (base, iz)
+            view = _view(base, iz)
             return view
         if isinstance(base, DictV):
             key = self.as_key(idx, base.dom.sort().domain())
@@ -1352,6 +1367,19 @@ class Executor:
             self.assume(cl.expr, "%s/post#%s" % (tag, cl.name))
         self.assumed.append("contract of %s assumed at call site L%d" % (c.qualname, node.lineno))
         return result
+
+
+def _view(oseq, idx):
+    """element view of a struct-of-arrays object list; a field given as a list of arrays is a fixed-length list-valued field (read only)"""
+    fields = {}
+    for f, a in oseq.fields.items():
+        if isinstance(a, (list, tuple)):
+            fields[f] = Seq("list", [z3.Select(x, idx) for x in a])
+        else:
+            fields[f] = z3.Select(a, idx)
+    view = Obj(oseq.cls, fields)
+    view.origin = (oseq, idx)
+    return view
 
 
 def _trivial(h):
